@@ -1,4 +1,5 @@
 import Pyrtma.Proofs.HashValue
+import Pyrtma.Proofs.YamlDef
 /-!
 # C13 — the version hash identifies the definition text, everywhere the same
 
@@ -14,10 +15,14 @@ Clauses of the property and where they are decided:
 * *same from every file location, import order, unrelated definitions* — `stored_hash_is_own_digest`,
   `relocation_keeps_hash`: in the registration walk (any files under any paths in any order, any neighbours) every
   stored definition carries the digest of its own text; only `src` depends on the place;
-* *regardless of comments, blank lines* (and quoting, hex spelling of the id, key order) — the hashed text is not a
-  substring of the source: it is re-rendered from the values the YAML loader delivers (header of
-  `Model/HashText.lean`), so these never reach `Def`.  That the loader drops them is ruamel.yaml's behaviour,
-  checked on the implementation for every generated definition written three ways;
+* *regardless of comments, blank lines* (and quoting, hex spelling of the id, key order, indentation widths) — the
+  hashed text is not a substring of the source: it is re-rendered from the values the YAML loader delivers.
+  `Model/YamlDef.lean` models that loader for the block-style subset definition files use (`loadDef`: comment
+  stripping, blank-line removal, block-mapping structure, implicit typing of scalars; `sourceDigest` = the hash as a
+  function of the physical lines) and `comment_line_ignored`, `blank_line_ignored`, `trailing_comment_ignored`,
+  `trailing_blanks_ignored`, `source_hash_function_of_identity` are theorems about it; hex / key order / quotes /
+  indentation are evaluated examples.  That ruamel.yaml loads like `loadDef` is decided on the implementation:
+  the real lines of every generated definition, decorated at random, go through both;
 * *changes whenever any of those changes* — the text: `rawText_injective_partial`, `edit_changes_text`, and one theorem
   per edit kind of the quantifier (`rename_… id_change_… field_rename_… field_retype_… field_insert_… field_delete_…
   field_reorder_… signal_message_changes_text`); the value: `edit_changes_hash` under the explicit hypothesis
@@ -593,6 +598,84 @@ theorem relocation_keeps_hash (walk₁ walk₂ : List SrcFile) (reg₁ reg₂ : 
   have := (hash_function_of_identity d₁ d₂ i (hi₁ f₁ hf₁ d₁ hd₁ hn₁.symm) (hi₂ f₂ hf₂ d₂ hd₂ hn₂.symm)).2
   rw [← hh₁, ← hh₂] at this
   exact Option.some.inj this
+
+/-! ## from the source lines: what the YAML loader drops never reaches the hash (`Model/YamlDef.lean`)
+
+`sourceDigest k ls` = the hash as a function of the physical lines of a definition block: `loadDef` (comment
+stripping, blank-line removal, block-mapping structure, implicit typing of scalars) followed by `digestHex`.
+The correspondence check feeds the real lines of every generated definition — decorated at random — to `loadDef`. -/
+
+section Source
+open Pyrtma.YamlDef
+
+/-- **A comment line — at any indentation, whatever it says — changes neither the loaded value nor the hash.** -/
+theorem comment_line_ignored (k : Kind) (a b : List Line) (bl c : Line) (hb : bl.all isBlank = true) :
+    loadDef k (a ++ (bl ++ '#' :: c) :: b) = loadDef k (a ++ b) ∧
+    sourceDigest k (a ++ (bl ++ '#' :: c) :: b) = sourceDigest k (a ++ b) := by
+  have : loadDef k (a ++ (bl ++ '#' :: c) :: b) = loadDef k (a ++ b) := by
+    unfold loadDef; rw [clean_insert a b _ (cleanLine_comment bl c hb)]
+  exact ⟨this, by unfold sourceDigest; rw [this]⟩
+
+/-- **A blank line (empty, or blanks only) changes neither the loaded value nor the hash.** -/
+theorem blank_line_ignored (k : Kind) (a b : List Line) (bl : Line) (hb : bl.all isBlank = true) :
+    loadDef k (a ++ bl :: b) = loadDef k (a ++ b) ∧ sourceDigest k (a ++ bl :: b) = sourceDigest k (a ++ b) := by
+  have : loadDef k (a ++ bl :: b) = loadDef k (a ++ b) := by
+    unfold loadDef; rw [clean_insert a b _ (cleanLine_blank bl hb)]
+  exact ⟨this, by unfold sourceDigest; rw [this]⟩
+
+/-- **A trailing comment on any line whose quotes are closed changes neither the loaded value nor the hash.** -/
+theorem trailing_comment_ignored (k : Kind) (a b : List Line) (l bl c : Line) (hl : Complete l)
+    (hb : bl.all isBlank = true) (hne : bl ≠ []) :
+    loadDef k (a ++ (l ++ (bl ++ '#' :: c)) :: b) = loadDef k (a ++ l :: b) ∧
+    sourceDigest k (a ++ (l ++ (bl ++ '#' :: c)) :: b) = sourceDigest k (a ++ l :: b) := by
+  have : loadDef k (a ++ (l ++ (bl ++ '#' :: c)) :: b) = loadDef k (a ++ l :: b) := by
+    unfold loadDef; rw [clean_replace a b l _ (cleanLine_trailing_comment l bl c hl hb hne)]
+  exact ⟨this, by unfold sourceDigest; rw [this]⟩
+
+/-- **Trailing blanks change neither the loaded value nor the hash.** -/
+theorem trailing_blanks_ignored (k : Kind) (a b : List Line) (l bl : Line) (hl : Complete l) (hb : bl.all isBlank = true) :
+    loadDef k (a ++ (l ++ bl) :: b) = loadDef k (a ++ l :: b) ∧
+    sourceDigest k (a ++ (l ++ bl) :: b) = sourceDigest k (a ++ l :: b) := by
+  have : loadDef k (a ++ (l ++ bl) :: b) = loadDef k (a ++ l :: b) := by
+    unfold loadDef; rw [clean_replace a b l _ (cleanLine_trailing_blanks l bl hl hb)]
+  exact ⟨this, by unfold sourceDigest; rw [this]⟩
+
+/-- the hash of a loaded definition is the hash of its identity: the source enters only through `loadDef` -/
+theorem source_hash_function_of_identity (k : Kind) (ls₁ ls₂ : List Line) (d₁ d₂ : Def) (i : Identity)
+    (h₁ : loadDef k ls₁ = some d₁) (h₂ : loadDef k ls₂ = some d₂) (i₁ : d₁.identity? = some i) (i₂ : d₂.identity? = some i) :
+    sourceDigest k ls₁ = sourceDigest k ls₂ := by
+  simp only [sourceDigest, h₁, h₂, Option.bind_some]
+  exact (hash_function_of_identity d₁ d₂ i i₁ i₂).2
+
+private def srcPlain : List Line := ["  M:", "    id: 1006", "    fields:", "      a: int32", "      b: double[2]"].map String.toList
+/-- the same definition: hex id, `fields` before `id`, quoted type texts, other indentation widths, comments with
+colons / `#` / quotes, blank lines, trailing blanks -/
+private def srcDecorated : List Line :=
+  ["  M:   # the definition: M", "", "       fields:  ", "   # a comment line: fields: null", "            a:   'int32'  # a # b",
+   "", "            b: \"double[2]\"", "#id: 99", "       id: 0x3ee # 'x' \"y\"", "     "].map String.toList
+
+example : loadDef .message srcPlain = some (msg "M".toList 1006 [("a".toList, "int32".toList), ("b".toList, "double[2]".toList)]) := by
+  decide
+example : loadDef .message srcDecorated = loadDef .message srcPlain := by decide
+example : sourceDigest .message srcDecorated = sourceDigest .message srcPlain := by
+  have : loadDef .message srcDecorated = loadDef .message srcPlain := by decide
+  simp [sourceDigest, this]
+example : (sourceDigest .message srcDecorated).map (·.take 8) = some "311e4282".toList := by decide +kernel
+/-- signal forms: `null`, `~`, nothing -/
+example : loadDef .message (["  S:", "    id: 12", "    fields: null"].map String.toList) = some (sig "S".toList 12) := by decide
+example : loadDef .message (["  S:", "    fields: ~", "    id: 12"].map String.toList) = some (sig "S".toList 12) := by decide
+example : loadDef .message (["  S:", "    fields:", "    id: 0xC"].map String.toList) = some (sig "S".toList 12) := by decide
+/-- outside the modelled subset the loader says so (no guess): flow style, a boolean, a missing id -/
+example : loadDef .message (["  S:", "    id: 12", "    fields: {a: int32}"].map String.toList) = none := by decide
+example : loadDef .message (["  S:", "    id: true", "    fields: null"].map String.toList) = none := by decide
+example : loadDef .message (["  S:", "    fields: null"].map String.toList) = none := by decide
+/-- hypotheses of the decoration theorems are satisfiable -/
+example : Complete "      b: \"double[2]\"".toList := Or.inr (by decide)
+example : Complete "    id: 5  # already a comment".toList := Or.inl (by decide)
+example : ¬ Complete "      b: \"double[2]".toList := by
+  intro h; rcases h with h | h <;> revert h <;> decide
+
+end Source
 
 /-! ## non-vacuity -/
 
